@@ -272,6 +272,7 @@ void gen_history(Rng &r, const Profile &pf, Plan &plan) {
             e.s.push_back("AL" + gen_name(r, 5) + tos(f));
             frames.push_back(e);
         }
+        if (r.chance(1, 60)) { Step nw; nw.op = OP_NEW; frames.push_back(nw); } // the caller starts over with a fresh object (earlier files stay on the disk)
         if (r.chance(1, 8)) { Step lk; lk.op = OP_LOOKUP; lk.i = {static_cast<int64_t>(r.next() >> 1)}; frames.push_back(lk); }
         if (r.chance(1, 25)) { Step s3; s3.op = OP_SET_RATE; s3.i = {static_cast<int64_t>(r.below(2)), static_cast<int64_t>(RATES[r.below(8)])}; frames.push_back(s3); }
     }
